@@ -38,7 +38,7 @@ func reg(p *propCfg) {
 func init() {
 	reg(&propCfg{ID: "C10", QuickRuns: 24000, QuickSecs: 40, ThoroughRuns: 400000, ThoroughSecs: 780, Chunk: 50,
 		Level:    "fault_enumeration",
-		RuleNote: "C10 strata: 'enum' = fixed 3-caller session with the server->client stream cut (EOF / reset) after an enumerated byte offset 0..600 (stride 7 so that any prefix of runs spreads over the whole session), schedules sampled; 'random' = 1..8 callers with a drawn fault (cut-eof, cut-reset, write-err, Unmount at a drawn step, unparseable / undersize / oversize frame, reply to unknown tag, peer close, stalled peer that later resets), replies withheld with drawn probability; 'control' = no fault, every call must succeed. Fault kind 'stall-then-cut': the peer stops reading so that the client's writer blocks on a bounded transport, then only the server-to-client stream ends.",
+		RuleNote: "C10 strata: 'enum' = fixed 3-caller session with the server->client stream cut (EOF / reset) after an enumerated byte offset 0..600 (stride 7 so that any prefix of runs spreads over the whole session), schedules sampled; 'random' = 1..8 callers with a drawn fault (cut-eof, cut-reset, write-err, Unmount at a drawn step, unparseable / undersize / oversize frame, reply to unknown tag, peer close, stalled peer that later resets), replies withheld with drawn probability; 'control' = no fault, every call must succeed. Fault kind 'stall-then-cut': the peer stops reading so that the client's writer blocks on a bounded transport, then only the server-to-client stream ends. Garbled frame sizes are relative to the msize the peer negotiated; one garble variant is an Rwalk announcing 5042 (10083) qids in 10 (3) bytes.",
 		Real:     []string{"go9p client library (Clnt, Rpc/Rpcnb, recv/send goroutines, pools, Logger) — instrumented copy of /repo", "Go runtime, channels, mutexes"},
 		Stub:     []string{"9P server: scripted peer with an independent codec", "transport: simulated net.Conn (segmentation, back-pressure, cuts, resets, write errors)"},
 		ProbeNames: []string{"fault-with-2+-calls-failing", "2+-outstanding-at-server"}})
@@ -49,7 +49,7 @@ var srvStub = []string{"file-server implementation: ScriptFS (scripted SrvReqOps
 
 func init() {
 	reg(&propCfg{ID: "C03", QuickRuns: 12000, QuickSecs: 40, ThoroughRuns: 300000, ThoroughSecs: 780, Chunk: 50,
-		RuleNote:   "C03: 1..3 connections, per connection 1..16 (thorough 1..64) pipelined requests of 9 types on 1..64 tags that are reused as soon as a reply arrives; per request the script answers now / parked until released / after returning / from another goroutine / with an Rerror; stratum 'double-answer' also answers twice with different content. Held requests are released one per phase in scheduler-chosen order. Every 16th run is the stratum 'tversion-mid-session': 1..16 Tstat requests (a drawn share parked in the implementation) with a Tversion behind them in the same or the next segment; once the server is idle again the same tags are used for new requests, each of which must get exactly one Rstat. The cancelled-neighbours stratum issues one to three Tflush per cancelled request.",
+		RuleNote:   "C03: 1..3 connections, per connection 1..16 (thorough 1..64) pipelined requests of 9 types on 1..64 tags that are reused as soon as a reply arrives; per request the script answers now / parked until released / after returning / from another goroutine / with an Rerror; stratum 'double-answer' also answers twice with different content. Held requests are released one per phase in scheduler-chosen order. Every 16th run is the stratum 'tversion-mid-session': 1..16 Tstat requests (a drawn share parked in the implementation) with a Tversion behind them in the same or the next segment; once the server is idle again the same tags are used for new requests, each of which must get exactly one Rstat. The cancelled-neighbours stratum issues one to three Tflush per cancelled request. Every 16th run (index 5) is the stratum 'clunk-and-use-pipelined': a Tclunk or Tremove of a fid written together with 1..3 further requests naming the same fid; every one gets exactly one reply.",
 		Real:       srvReal, Stub: srvStub,
 		ProbeNames: []string{"multi-message-segment", "tag-reused-after-reply", "3+-held-simultaneously", "release-order-differs-from-arrival", "completion-order-differs-from-arrival", "8+-requests-held-on-a-connection"}})
 }
@@ -70,7 +70,7 @@ func init() {
 
 func init() {
 	reg(&propCfg{ID: "C11", QuickRuns: 12000, QuickSecs: 40, ThoroughRuns: 300000, ThoroughSecs: 780, Chunk: 50,
-		RuleNote:   "C11: a victim and a bystander connection run C03-style pipelined histories (fids attached, walked, opened, created, clunked, removed; up to 4 victim requests parked in the implementation); the victim's client end is closed, reset, or closed in the middle of a frame at a drawn step / at the first quiescence with requests parked / when idle; parked requests are released afterwards in scheduler-chosen order; then the bystander and a fresh connection are probed. A quarter of the runs cancel parked victim requests through FlushOp before the cut; cut mode 'half-close': the victim stops reading after the set-up (24-byte transport, the server's writer blocks) and then ends only its sending direction. Every 12th run is the stratum 'tversion-then-disconnect': 1..8 requests (a drawn share parked) with a Tversion behind them, then the victim leaves; ConnClosed once, every fid shown destroyed exactly once, no goroutine left. The Ufs stratum reads the directory from offset 0 three times through one fid. The 'tversion-then-disconnect' stratum starts with a Twalk to a new fid parked in the implementation and a Tstat naming that new fid; the Ufs stratum ends with a Topen and a Tversion written together.",
+		RuleNote:   "C11: a victim and a bystander connection run C03-style pipelined histories (fids attached, walked, opened, created, clunked, removed; up to 4 victim requests parked in the implementation); the victim's client end is closed, reset, or closed in the middle of a frame at a drawn step / at the first quiescence with requests parked / when idle; parked requests are released afterwards in scheduler-chosen order; then the bystander and a fresh connection are probed. A quarter of the runs cancel parked victim requests through FlushOp before the cut; cut mode 'half-close': the victim stops reading after the set-up (24-byte transport, the server's writer blocks) and then ends only its sending direction. Every 12th run is the stratum 'tversion-then-disconnect': 1..8 requests (a drawn share parked) with a Tversion behind them, then the victim leaves; ConnClosed once, every fid shown destroyed exactly once, no goroutine left. The Ufs stratum reads the directory from offset 0 three times through one fid. The 'tversion-then-disconnect' stratum starts with a Twalk to a new fid parked in the implementation and a Tstat naming that new fid; the Ufs stratum ends with a Topen and a Tversion written together. A quarter of the parked victim requests have a second request queued under the same tag when the connection goes.",
 		Real:       srvReal, Stub: srvStub,
 		ProbeNames: []string{"cut-with-requests-parked", "3+-held-simultaneously", "release-order-differs-from-arrival"}})
 }
@@ -85,7 +85,7 @@ func init() {
 
 func init() {
 	reg(&propCfg{ID: "C12", QuickRuns: 2000, QuickSecs: 40, ThoroughRuns: 200000, ThoroughSecs: 780, Chunk: 50,
-		RuleNote:   "C12 strata by run index: 'grid' enumerates server msize {default,24,25,64,300,8192,1 MiB+24} x client msize {0,23,24,25,server-1,server,server+1,2^32-1,200,4096} x server dialect x version string {9P2000,9P2000.u,9P2000.L,'',unknown} (700 cells, each revisited under new schedules) and then measures every reply kind on the wire with the script producing Rstat / Rerror at msize-1, msize, msize+1, 2*msize, reads up to msize-24 and a 16-element walk; 'bad-frame' announces sizes 0..6, msize+1, 8*msize+1, 2^31, 2^32-1 with and without a partial body; 'client' runs Connect against scripted Rversion (msize <,=,> the client's, five version strings); 'renegotiate' sends a second Tversion with a smaller msize after the reply-buffer pool was filled, optionally with requests parked. In 'grid' cells whose Tversion is refused (msize < 24) a proper Tversion follows on the same connection and must be negotiated and served as on a fresh one. The reads parked across the second Tversion ask for up to 3000 bytes (their replies would exceed the new msize).",
+		RuleNote:   "C12 strata by run index: 'grid' enumerates server msize {default,24,25,64,300,8192,1 MiB+24} x client msize {0,23,24,25,server-1,server,server+1,2^32-1,200,4096} x server dialect x version string {9P2000,9P2000.u,9P2000.L,'',unknown} (700 cells, each revisited under new schedules) and then measures every reply kind on the wire with the script producing Rstat / Rerror at msize-1, msize, msize+1, 2*msize, reads up to msize-24 and a 16-element walk; 'bad-frame' announces sizes 0..6, msize+1, 8*msize+1, 2^31, 2^32-1 with and without a partial body; 'client' runs Connect against scripted Rversion (msize <,=,> the client's, five version strings); 'renegotiate' sends a second Tversion with a smaller msize after the reply-buffer pool was filled, optionally with requests parked. In 'grid' cells whose Tversion is refused (msize < 24) a proper Tversion follows on the same connection and must be negotiated and served as on a fresh one. The reads parked across the second Tversion ask for up to 3000 bytes (their replies would exceed the new msize). The renegotiation stratum ends with a third Tversion asking for more again: whatever msize it is answered with must then be honoured (frames up to it accepted, replies never beyond it).",
 		Real:       append(append([]string{}, srvReal...), "go9p client Connect/Attach (client stratum)"), Stub: srvStub,
 		ProbeNames: []string{"msize-too-small-refused", "rstat-sent", "reply-refused-for-size", "rerror-full-text-sent", "rerror-shortened-or-replaced", "reply-buffer-older-than-negotiation", "renegotiation-with-requests-outstanding"}})
 }
@@ -95,14 +95,14 @@ var clntStub = []string{"9P server: scripted peer with an independent codec, ans
 
 func init() {
 	reg(&propCfg{ID: "C09", QuickRuns: 2000, QuickSecs: 40, ThoroughRuns: 200000, ThoroughSecs: 780, Chunk: 25, WatchdogSecs: 900,
-		RuleNote:   "C09: stratum 'concurrent': 1..16 (thorough ..64) caller goroutines with 2..8 calls each (Read, Write, Stat, Walk, Open, Clunk, reads answered with Rerror text+number, reads answered with a reply of the wrong type, pipelined Tag-interface reads sharing a tag); the scripted server withholds replies with drawn probability and releases them one per phase in scheduler-chosen order, replies segmented by policy; reply content is a function of the request. Stratum 'long-run' (every 50th run): 10 000 (thorough 70 000 > 65 535) consecutive calls over one connection. Stratum 'long-run-wide' (quick: one run, thorough: every 800th): 100 000 calls, 64 at a time in flight through ReqAlloc/Rpcnb/ReqFree, so that 48 of every 64 request slots overflow the client's 16-slot cache and their tags pass through the tag pool (more than 65 535 pool round trips). Callers also use the path helpers FStat / FOpen / FWalk, with names the scripted server refuses (Rerror) or walks only partly; pipelined Tag reads hand their completions to a consumer channel of capacity n, 0 or 1 and must complete in issue order (c4-tag-order). Op 'rpcnb': two non-blocking requests (ReqAlloc, caller-owned completion channel, Rpcnb, ReqFree), the second answered normally, with Rerror or with the wrong reply type, the first freed while the second is outstanding. A share of the pipelined Tag reads is refused or answered with the wrong type and must complete with an error. Pipelines under one Tag may start with a Tstat before the Treads (several request kinds under one tag complete in issue order).",
+		RuleNote:   "C09: stratum 'concurrent': 1..16 (thorough ..64) caller goroutines with 2..8 calls each (Read, Write, Stat, Walk, Open, Clunk, reads answered with Rerror text+number, reads answered with a reply of the wrong type, pipelined Tag-interface reads sharing a tag); the scripted server withholds replies with drawn probability and releases them one per phase in scheduler-chosen order, replies segmented by policy; reply content is a function of the request. Stratum 'long-run' (every 50th run): 10 000 (thorough 70 000 > 65 535) consecutive calls over one connection. Stratum 'long-run-wide' (quick: one run, thorough: every 800th): 100 000 calls, 64 at a time in flight through ReqAlloc/Rpcnb/ReqFree, so that 48 of every 64 request slots overflow the client's 16-slot cache and their tags pass through the tag pool (more than 65 535 pool round trips). Callers also use the path helpers FStat / FOpen / FWalk, with names the scripted server refuses (Rerror) or walks only partly; pipelined Tag reads hand their completions to a consumer channel of capacity n, 0 or 1 and must complete in issue order (c4-tag-order). Op 'rpcnb': two non-blocking requests (ReqAlloc, caller-owned completion channel, Rpcnb, ReqFree), the second answered normally, with Rerror or with the wrong reply type, the first freed while the second is outstanding. A share of the pipelined Tag reads is refused or answered with the wrong type and must complete with an error. Pipelines under one Tag may start with a Tstat before the Treads (several request kinds under one tag complete in issue order). Stratum 'long-run-errors' (quick: run 350; thorough: every 800th): 70 000 consecutive calls answered with Rerror. After each failing read a caller checks that the error its previous failing call returned still reads the same.",
 		Real:       clntReal, Stub: clntStub,
 		ProbeNames: []string{"8+-calls-outstanding", "32+-calls-outstanding", "replies-delivered-out-of-order", "tag-value-reused-after-free", "5+-replies-withheld"}})
 }
 
 func init() {
 	note := "C04/C05 share one harness: histories of 10..40 (thorough ..200) requests over fid numbers {0..5,7,NOFID,NOFID-1} on 1..2 connections using the same numbers, all message types incl. walks that are full, partial, failing, zero-name, in place or onto a used newfid, attach with/without afid, open modes incl. OTRUNC/ORCLOSE, create perms incl. DMDIR and the special-file bits, read/write counts at 0, 1, msize-25, msize-24, msize-23, 2^31, 2^32-24, 2^32-11, 2^32-1, both dialects, with and without AuthOps; the generator runs the reference model forward to keep histories in interesting states. Requests are issued one at a time (the next the moment the previous reply is readable, while the previous worker may still be running); every reply, every implementation call (operation, fid object identity, user, arguments) and every FidDestroy is compared with the reference fid-table model, then every fid number is probed."
-	reg(&propCfg{ID: "C04", QuickRuns: 10000, QuickSecs: 40, ThoroughRuns: 200000, ThoroughSecs: 780, Chunk: 50, RuleNote: note + " C04 evaluates rules a*: validity, refusal texts, forwarding of requests naming invalid fids, user binding, FidDestroy exactly once and not after the invalidating reply, final probes. The server offers msize, 2 x msize or 64 KiB while the client asks for msize. 8 % of the forwarded requests are cancelled while the implementation holds them (Tflush, FlushOp calling req.Flush()): no reply, model restored, history goes on. 30 % of the forwarded Twrites are parked in the implementation while a filler request arrives (arguments and payload must stay intact). 60 % of C04 histories end with an epilogue: on some connections a parked request is cancelled by Tflush (FlushOp), then the client leaves, and every fid object ever shown to the implementation must have been reported destroyed exactly once. Every 10th C04 run is the stratum 'ufs-fid-table': 10..40 (thorough ..150) requests of all kinds over six fid numbers against the real Ufs (including hard-link creates that name a source fid), validity model driven by the replies, Tstat probes at the end. Every 5th run of C04 is the stratum 'concurrent-batch': after a prologue, 2..8 (thorough ..30) rounds each send 2..4 requests (Tattach, Twalk to a new or the same fid with 0/1 names, Tclunk, Tremove, Tstat) that mostly meet on one of four fid numbers, in one segment or back to back, the implementation holding a drawn share of them until released in drawn order; the replies, the implementation calls per request and the validity of every number afterwards (probed with Tstat) must be explained by some order of the batch applied to the fid-table model (all orders tried; a request overlapping an invalidation or an unanswered bind of its fid may go either way), and at the end every fid object shown to the implementation is reported destroyed exactly once unless still valid.",
+	reg(&propCfg{ID: "C04", QuickRuns: 10000, QuickSecs: 40, ThoroughRuns: 200000, ThoroughSecs: 780, Chunk: 50, RuleNote: note + " C04 evaluates rules a*: validity, refusal texts, forwarding of requests naming invalid fids, user binding, FidDestroy exactly once and not after the invalidating reply, final probes. Tcreate perm words include DMAUTH, DMAPPEND, DMEXCL and DMTMP. 40 % of the disconnect epilogues send a Tversion before leaving. The server offers msize, 2 x msize or 64 KiB while the client asks for msize. 8 % of the forwarded requests are cancelled while the implementation holds them (Tflush, FlushOp calling req.Flush()): no reply, model restored, history goes on. 30 % of the forwarded Twrites are parked in the implementation while a filler request arrives (arguments and payload must stay intact). 60 % of C04 histories end with an epilogue: on some connections a parked request is cancelled by Tflush (FlushOp), then the client leaves, and every fid object ever shown to the implementation must have been reported destroyed exactly once. Every 10th C04 run is the stratum 'ufs-fid-table': 10..40 (thorough ..150) requests of all kinds over six fid numbers against the real Ufs (including hard-link creates that name a source fid), validity model driven by the replies, Tstat probes at the end. Every 5th run of C04 is the stratum 'concurrent-batch': after a prologue, 2..8 (thorough ..30) rounds each send 2..4 requests (Tattach, Twalk to a new or the same fid with 0/1 names, Tclunk, Tremove, Tstat) that mostly meet on one of four fid numbers, in one segment or back to back, the implementation holding a drawn share of them until released in drawn order; the replies, the implementation calls per request and the validity of every number afterwards (probed with Tstat) must be explained by some order of the batch applied to the fid-table model (all orders tried; a request overlapping an invalidation or an unanswered bind of its fid may go either way), and at the end every fid object shown to the implementation is reported destroyed exactly once unless still valid.",
 		Real: srvReal, Stub: srvStub, ProbeNames: []string{"refused-before-forward", "fid-invalidated", "forwarded-walk", "forwarded-attach"}})
 	reg(&propCfg{ID: "C05", QuickRuns: 8000, QuickSecs: 40, ThoroughRuns: 200000, ThoroughSecs: 780, Chunk: 50, RuleNote: note + " C05 evaluates rules b*: refusal before forwarding for every protocol rule, forwarded exactly once with the fid object, user and arguments named, reply equal to what the implementation produced, authentication gate.",
 		Real: srvReal, Stub: srvStub, ProbeNames: []string{"refused-before-forward", "forwarded-read", "forwarded-write", "forwarded-create", "forwarded-open"}})
@@ -120,7 +120,7 @@ func init() {
 
 func init() {
 	reg(&propCfg{ID: "C15", QuickRuns: 8000, QuickSecs: 40, ThoroughRuns: 100000, ThoroughSecs: 780, Chunk: 25,
-		RuleNote:   "C15: directories of 0, 1, 2, 3, 7, 50 (thorough also 1000 and 3000) entries with name lengths 1..255 (so entry sizes vary), files and subdirectories, msize 256..64 KiB, both dialects. Five strata by run index: a fixed count enumerated from the largest entry size up to about three entries; random counts per read; a listing abandoned after 1..3 replies and restarted at offset 0; the client's Readdir(0) and Readdir(n); a count smaller than the first entry. Every Rread payload is split into whole records by the independent stat decoder and the concatenated listing is compared with os.ReadDir. The too-small stratum also lists up to a drawn entry k, offers less than entry k needs at that offset (Rerror expected, not an empty reply) and then reads entry k with exactly its size. The too-small stratum also opens a fresh fid whose very first read is too small (Rerror) and then lists through it. Stratum 'huge-directory' (quick: runs 7 and 1008; thorough: every 250th): 4000 entries with names of 200..255 bytes (packed listing > 1 MiB), msize 64 KiB, raw listing with the largest count or the client's Readdir(0).",
+		RuleNote:   "C15: directories of 0, 1, 2, 3, 7, 50 (thorough also 1000 and 3000) entries with name lengths 1..255 (so entry sizes vary), files and subdirectories, msize 256..64 KiB, both dialects. Five strata by run index: a fixed count enumerated from the largest entry size up to about three entries; random counts per read; a listing abandoned after 1..3 replies and restarted at offset 0; the client's Readdir(0) and Readdir(n); a count smaller than the first entry. Every Rread payload is split into whole records by the independent stat decoder and the concatenated listing is compared with os.ReadDir. The too-small stratum also lists up to a drawn entry k, offers less than entry k needs at that offset (Rerror expected, not an empty reply) and then reads entry k with exactly its size. The too-small stratum also opens a fresh fid whose very first read is too small (Rerror) and then lists through it. Stratum 'huge-directory' (quick: runs 7 and 1008; thorough: every 250th): 4000 entries with names of 200..255 bytes (packed listing > 1 MiB), msize 64 KiB, raw listing with the largest count or the client's Readdir(0). Every 50th run is the stratum 'entry-larger-than-msize': a 252-byte name in a directory served at msize 256..330; a listing (raw with the largest count, or Readdir(0)) must end in an error, not pass the entry over.",
 		Real:       ufsReal, Stub: ufsStub,
 		ProbeNames: []string{"fixed-count-listing", "restart-at-zero-mid-listing", "client-readdir", "count-too-small"}})
 }
@@ -141,7 +141,7 @@ func init() {
 
 func init() {
 	reg(&propCfg{ID: "C18", QuickRuns: 3000, QuickSecs: 40, ThoroughRuns: 60000, ThoroughSecs: 780, Chunk: 20,
-		RuleNote:   "C18: layout outer/{canary.txt, canarydir/inside.txt, root/...} with a further canary above; 6..20 attacking connections per run, each with an attach name, 0..4 walk elements, a create name and a rename target drawn from a grammar over '..', '.', '', '/', absolute paths, '../' chains, elements containing '/', and mixtures with real names, started at the root or at a random depth, followed by stat, open, read / directory read, write, create, rename and remove through whatever fid resulted. Canaries and everything else outside the root (mode, mtime, content, listing) must be unchanged, no qid returned may be that of an object outside the root (inode comparison), no data read may be a canary's, '..' at the root must yield the root's qid. Hostile creates use every kind (file, directory and, in 9P2000.u, symbolic link, hard link, named pipe, device, socket); after an Rcreate the fid is examined with Tstat and a walk to the canary's name. Further steps: a Twstat rename through a fid that designates the root itself (cloned, or reached by 'sub','..'), and Twalk(0->N) + Twalk(N->M by the components of the canary's absolute path) + Tstat(M) written as one segment. The name grammar includes elements with a trailing or embedded '/': '../', './', 'sub/', '..//', '/..', '<real>/'. The tree holds symbolic links that stay inside it but point towards the root (up -> ., sub/back -> .., sub/deep/top -> ../..), and walks go through them and then '..'. In a fifth of the runs the server's working directory is the tree and it exports \".\".",
+		RuleNote:   "C18: layout outer/{canary.txt, canarydir/inside.txt, root/...} with a further canary above; 6..20 attacking connections per run, each with an attach name, 0..4 walk elements, a create name and a rename target drawn from a grammar over '..', '.', '', '/', absolute paths, '../' chains, elements containing '/', and mixtures with real names, started at the root or at a random depth, followed by stat, open, read / directory read, write, create, rename and remove through whatever fid resulted. Canaries and everything else outside the root (mode, mtime, content, listing) must be unchanged, no qid returned may be that of an object outside the root (inode comparison), no data read may be a canary's, '..' at the root must yield the root's qid. Hostile creates use every kind (file, directory and, in 9P2000.u, symbolic link, hard link, named pipe, device, socket); after an Rcreate the fid is examined with Tstat and a walk to the canary's name. Further steps: a Twstat rename through a fid that designates the root itself (cloned, or reached by 'sub','..'), and Twalk(0->N) + Twalk(N->M by the components of the canary's absolute path) + Tstat(M) written as one segment. The name grammar includes elements with a trailing or embedded '/': '../', './', 'sub/', '..//', '/..', '<real>/'. The tree holds symbolic links that stay inside it but point towards the root (up -> ., sub/back -> .., sub/deep/top -> ../..), and walks go through them and then '..'. In a fifth of the runs the server's working directory is the tree and it exports \".\". Further: sub/deep is renamed through its own fid to the top of the tree and '..','..','canary.txt' is walked from that fid; in a fifth of the runs the export root is spelled through a symbolic link.",
 		Real:       ufsReal, Stub: ufsStub,
 		ProbeNames: []string{"dotdot-walk", "attach-refused"}})
 }
@@ -156,7 +156,7 @@ func init() {
 
 func init() {
 	reg(&propCfg{ID: "C06", QuickRuns: 2400, QuickSecs: 45, ThoroughRuns: 300000, ThoroughSecs: 780, Chunk: 40,
-		RuleNote:   "C06: six strata (scripted implementation | Ufs on a scratch tree) x (grammar | byte mutation | raw bytes). A hostile raw peer optionally negotiates (msize 24..70000) and binds fids in several states (attached, walked, opened directory and file), then sends 5..30 frames: every message type (T and R codes) with boundary and random field values (NOFID, NOTAG, 0, max, 2^31, 2^63, 2^64-1), names '', '.', '..', 'a/b', '/', 255, 4000 and 65000 bytes, walks of 16, 17 and 300 elements, counts around msize and 2^32, directory reads at arbitrary offsets, second Tversion mid-session; or valid requests with flipped / inserted / deleted / truncated bytes and edited size fields; or random bytes. A bystander connection issues Tstat throughout and a fresh connection is opened afterwards. Every other Ufs run additionally injects OS errors (20-200 per mille, at most 12) into the os / syscall calls of Ufs. Oracle: no goroutine of the simulated process panics; bystander and later connection are served; allocation stays bounded. Two of every 40 runs are directed Ufs sessions: 1100 Tattach with distinct numeric users followed by stats of objects owned by yet other users; a directory listed through a fid, then emptied and refilled with fewer, longer names, a refused too-small read at offset 0 and a read at the old end offset.",
+		RuleNote:   "C06: six strata (scripted implementation | Ufs on a scratch tree) x (grammar | byte mutation | raw bytes). A hostile raw peer optionally negotiates (msize 24..70000) and binds fids in several states (attached, walked, opened directory and file), then sends 5..30 frames: every message type (T and R codes) with boundary and random field values (NOFID, NOTAG, 0, max, 2^31, 2^63, 2^64-1), names '', '.', '..', 'a/b', '/', 255, 4000 and 65000 bytes, walks of 16, 17 and 300 elements, counts around msize and 2^32, directory reads at arbitrary offsets, second Tversion mid-session; or valid requests with flipped / inserted / deleted / truncated bytes and edited size fields; or random bytes. A bystander connection issues Tstat throughout and a fresh connection is opened afterwards. Every other Ufs run additionally injects OS errors (20-200 per mille, at most 12) into the os / syscall calls of Ufs. Oracle: no goroutine of the simulated process panics; bystander and later connection are served; allocation stays bounded. Two of every 40 runs are directed Ufs sessions: 1100 Tattach with distinct numeric users followed by stats of objects owned by yet other users; a directory listed through a fid, then emptied and refilled with fewer, longer names, a refused too-small read at offset 0 and a read at the old end offset. The raw-bytes generator includes frames whose count field times the element size wraps around (Rwalk/Twalk/Rread/Twrite with counts 5042, 10083, 15124, 65535 and a matching short body).",
 		Real:       append(append([]string{}, srvReal...), "go9p Ufs on a scratch tree (ufs strata)"),
 		Stub:       srvStub,
 		ProbeNames: []string{"hostile-connection-dropped-by-server", "bystander-worked-throughout", "grammar-Tread", "grammar-Twalk", "grammar-Twstat", "grammar-Tcreate", "grammar-Rread"}})
